@@ -406,6 +406,12 @@ var alphabet = func() []freeCall {
 		freeCall{Name: `Scopes(id)`, Apply: func(db, _ *gorm.DB, _ modelKind) *gorm.DB {
 			return db.Scopes(func(d *gorm.DB) *gorm.DB { return d })
 		}},
+		// a scope that returns a derived session sharing the statement (it also switches the implicit
+		// transaction off: with one in front, a scope-derived session leaves it open on the unchanged
+		// tree - reported separately, not this check's oracle)
+		freeCall{Name: `Scopes(Session{SkipDefaultTransaction})`, Apply: func(db, _ *gorm.DB, _ modelKind) *gorm.DB {
+			return db.Scopes(func(d *gorm.DB) *gorm.DB { return d.Session(&gorm.Session{SkipDefaultTransaction: true}) })
+		}},
 		freeCall{Name: `Unscoped()`, Apply: func(db, _ *gorm.DB, _ modelKind) *gorm.DB { return db.Unscoped() }},
 		freeCall{Name: `Select("mark")`, Apply: func(db, _ *gorm.DB, _ modelKind) *gorm.DB { return db.Select("mark") }},
 		// relation names in Select: on Delete the selected has-one / has-many / many2many records are
@@ -590,6 +596,10 @@ var finishers = []finisher{
 		return db.Delete(m.Keyed(k), m.Zero())
 	}},
 	{Name: `Delete(&T{})`, Delete: true, Run: func(db *gorm.DB, m modelKind, k int) *gorm.DB { return db.Delete(m.Keyed(k)) }},
+	// the key (if any) comes from the Model value only, the deleted value is key-less
+	{Name: `Model(&T{}).Delete(&T{})`, Delete: true, Run: func(db *gorm.DB, m modelKind, k int) *gorm.DB {
+		return db.Model(m.Keyed(k)).Delete(m.Zero())
+	}},
 	{Name: `Delete(&T{},"")`, Delete: true, Run: func(db *gorm.DB, m modelKind, k int) *gorm.DB { return db.Delete(m.Keyed(k), "") }},
 	{Name: `Delete(&T{},map{})`, Delete: true, Run: func(db *gorm.DB, m modelKind, k int) *gorm.DB {
 		return db.Delete(m.Keyed(k), map[string]interface{}{})
